@@ -406,10 +406,9 @@ def oracle(case, ir, drv=None, max_k=3):
         cols = impl.disp_cols(portf)
         m0 = op.mapping
         T = tg.T
-        # a PRESENT variable (first row in the present) with a further mapping row on a future step (coarse asset
-        # frequency whose step straddles start_future): its single contribution to that step is divided as well (F-17h)
-        straddle = bool(any((not mask[int(j)]) and int(t) >= first_f for j, t in zip(m0.index, m0['time_step'].values)))
-        obs['straddling_variable'] = straddle
+        # a PRESENT variable (first row in the present) may have a further mapping row on a future step (order or coarse
+        # step straddling start_future): its contribution is common to all scenarios and must NOT be divided (F-17h, repaired in 43d96c3)
+        obs['straddling_variable'] = bool(any((not mask[int(j)]) and int(t) >= first_f for j, t in zip(m0.index, m0['time_step'].values)))
         # (a) DCF table sums to the value
         tot = float(np.nansum(out['DCF'].values))
         if abs(tot - V_slp) > 2 * tol:
@@ -425,7 +424,7 @@ def oracle(case, ir, drv=None, max_k=3):
             if len(bad):
                 t = int(bad[0])
                 viol.append({'oracle': 'slp_dispatch_balance', 'detail': 'node %s step %d (%s): SLP dispatch table sums to %.6g' % (nd, t, 'future' if t >= first_f else 'present', bal[t]),
-                             'facts': {'kind': 'dispatch_balance', 'future': bool(t >= first_f), 'multi_row': multi, 'straddling_variable': straddle}})
+                             'facts': {'kind': 'dispatch_balance', 'future': bool(t >= first_f), 'multi_row': multi}})
                 break
         # (c) dispatch table = present decision / mean over the scenarios of the future decisions
         for (a, nd), col in cols.items():
@@ -441,14 +440,12 @@ def oracle(case, ir, drv=None, max_k=3):
                     want[t] += f * float(np.mean([x[j] for x in xs]))
                 else:
                     want[t] += f * float(res_slp.x[j])
-            # a step is divided by nS+1 as soon as ANY mapping row with a sample id sits on it; a present variable
-            # (first row in the present) with a further row on a future step is therefore divided as well
             got = disp[col].values.astype(float)
             bad = np.where(np.abs(got - want) > 1e-6 * max(1.0, float(np.abs(want).max())))[0]
             if len(bad):
                 t = int(bad[0])
                 viol.append({'oracle': 'slp_dispatch_mean', 'detail': 'dispatch %s step %d (%s): table says %.8g, expected %.8g (present decision / mean over the %d scenarios)' % (
-                    col, t, 'future' if t >= first_f else 'present', got[t], want[t], nS + 1), 'facts': {'kind': 'dispatch_mean', 'future': bool(t >= first_f), 'multi_row': multi, 'straddling_variable': straddle}})
+                    col, t, 'future' if t >= first_f else 'present', got[t], want[t], nS + 1), 'facts': {'kind': 'dispatch_mean', 'future': bool(t >= first_f), 'multi_row': multi}})
                 break
     if out is not None and drv is not None:
         viol += [{'oracle': 'corr', 'detail': d, 'facts': {'kind': 'readout_corr'}} for d in corr_readout(ir, res_slp, out, drv)]
